@@ -85,29 +85,58 @@ Definition step (m:model) (st:dstate) (t:name) : dstate :=
       end
   end.
 
+(* ---- vocabulary of the regenerated table Gen/DbTables.v (1): what processTableDepth does after a pass that left
+   tables incomplete ---- *)
+Inductive stop_kind :=
+  | StopNever        (* always another pass: never ends on a cyclic / dangling reference *)
+  | StopNoProgress   (* a pass that completed no table ends the recursion; placeUnorderedTables puts the remaining
+                        tables, sorted by name, at depth (largest depth used) + 1 *)
+  | StopUnknown.
+
+Fixpoint insert_by {A} (le:A -> A -> bool) (x:A) (l:list A) : list A :=
+  match l with [] => [x] | y :: r => if le x y then x :: l else y :: insert_by le x r end.
+Definition sort_by {A} (le:A -> A -> bool) (l:list A) : list A := fold_right (insert_by le) [] l.
+Definition sort_names (l:list name) : list name := sort_by Pos.leb l.
+
+(* placeUnorderedTables: lastDepth = 0, raised to depth+1 by every key depth >= lastDepth (= max key + 1) *)
+Definition last_depth (bd:list (N * list name)) : N :=
+  fold_left (fun acc kl => if N.leb acc (fst kl) then (fst kl + 1)%N else acc) bd 0%N.
+Definition place_one (ld:N) (st:dstate) (t:name) : dstate :=
+  DS (remove_name t (incomplete st)) ((t, ld) :: complete st) (visited st) (bd_add (bydepth st) ld t).
+Definition place_unordered (st:dstate) : dstate :=
+  fold_left (place_one (last_depth (bydepth st))) (sort_names (incomplete st)) st.
+
 (* processTableDepth: one pass over the incomplete tables (in map order), then recursion while any is left.
-   Go has no guard: on a cyclic or dangling reference this never ends (OutOfFuel for every fuel). *)
-Fixpoint process (fuel:nat) (ord:nat -> list name -> list name) (rnd:nat) (m:model) (st:dstate) : outcome dstate :=
+   `progressed` (set when a table completes in the pass) is read off the state: a pass only ever removes names
+   from the incomplete map, so it progressed iff that map got smaller. *)
+Fixpoint process (sk:stop_kind) (fuel:nat) (ord:nat -> list name -> list name) (rnd:nat) (m:model) (st:dstate) : outcome dstate :=
   match fuel with
   | O => OutOfFuel
   | S f =>
       let st' := fold_left (step m) (ord rnd (incomplete st)) st in
       match incomplete st' with
       | [] => Ok st'
-      | _ => process f ord (S rnd) m st'
+      | _ =>
+          match sk with
+          | StopNoProgress =>
+              if Nat.ltb (length (incomplete st')) (length (incomplete st))
+              then process sk f ord (S rnd) m st'
+              else Ok (place_unordered st')
+          | _ => process sk f ord (S rnd) m st'
+          end
       end
   end.
 
 Definition init_state (m:model) : dstate := DS (map tname m) [] [] [].
 
 (* CreateTableDepthMap *)
-Definition depth_map (fuel:nat) (ord:nat -> list name -> list name) (m:model) : outcome dstate :=
-  process fuel ord 0 m (init_state m).
+Definition depth_map (sk:stop_kind) (fuel:nat) (ord:nat -> list name -> list name) (m:model) : outcome dstate :=
+  process sk fuel ord 0 m (init_state m).
 
 Definition id_ord : nat -> list name -> list name := fun _ l => l.
 Definition rev_ord : nat -> list name -> list name := fun _ l => rev l.
 
-(* ---- vocabulary of the regenerated table Gen/DbTables.v ---- *)
+(* ---- vocabulary of the regenerated table Gen/DbTables.v (2) ---- *)
 (* how GenerateDatabaseScriptCreate / writeCreateSQLForATable turn (name, line) pairs into an emission order *)
 Inductive order_kind :=
   | ByLineMap      (* line -> name through a map[int32]string: two names on one line collide *)
